@@ -55,13 +55,30 @@ func isPure(in ssa.Instruction, x *Exec) bool {
 			}
 			return false
 		}
-		if callee := c.StaticCallee(); callee != nil {
+		if callee := resolveCallee(c); callee != nil {
 			if x.isAssumedPure(callee) {
 				return true
 			}
 			if fc, _ := x.contractOf(callee); fc != nil && !fc.ModAll && len(fc.Modifies) == 0 {
 				return true
 			}
+			return readOnlyFn(x, callee)
+		}
+		if c.IsInvoke() {
+			if ms := x.methodSpec(c); ms != nil && ms.Mode == "fn" {
+				return true
+			}
+			impls := x.implementers(c.Value.Type())
+			if len(impls) == 0 {
+				return false
+			}
+			for _, t := range impls {
+				m := x.L.Prog.LookupMethod(t, c.Method.Pkg(), c.Method.Name())
+				if m == nil || !readOnlyFn(x, m) {
+					return false
+				}
+			}
+			return true
 		}
 		return false
 	}
